@@ -2,7 +2,7 @@
 import importlib, os, sys
 sys.path.insert(0, os.path.dirname(os.path.abspath(__file__)))
 
-HOOK_COMMITS = "d7d16a8d2733f68bbf61ecbe7b1e68c5e64013b2 42adbe47f133a96e5cfc5a0fd5069c5464218cc7 98993fb394f39d430d64b435a59bdd0e8de5d219 556a5b9a96f7b1563e8dfb97b07888eee6e99fea 4e133267e0f097feb436378d6e2798f8247775fa ebfaf446cc402944495a05b24c59773a552e79b3 341abbefce5e523c12ffece820f9aa7a7181121d 5bee2c2a3c0499c1b10b04c5b0f52c723ba385f8 98bc66c2a2322bb90f67341a7eddc9fb68455adf 488ab72edc39781c0a2544ac1bfe1818b9128b56 cd02b1001acf527c1fca82f142d726672bb9b76b 3e94dbc34cbcc77550a7fd6963c75bd35e401829".split()
+HOOK_COMMITS = "d7d16a8d2733f68bbf61ecbe7b1e68c5e64013b2 42adbe47f133a96e5cfc5a0fd5069c5464218cc7 98993fb394f39d430d64b435a59bdd0e8de5d219 556a5b9a96f7b1563e8dfb97b07888eee6e99fea 4e133267e0f097feb436378d6e2798f8247775fa ebfaf446cc402944495a05b24c59773a552e79b3 341abbefce5e523c12ffece820f9aa7a7181121d 5bee2c2a3c0499c1b10b04c5b0f52c723ba385f8 98bc66c2a2322bb90f67341a7eddc9fb68455adf 488ab72edc39781c0a2544ac1bfe1818b9128b56 cd02b1001acf527c1fca82f142d726672bb9b76b ab34177625e18be055941fdba83e6d972a11992f".split()
 
 PENDING = "not yet built (planned at proof level, DESIGN.md section 7); no check is registered, so nothing is claimed"
 
